@@ -180,9 +180,10 @@ class C08:
                 e = ("elem", L.id)
                 key = ("attr", ("attr", e, "clip"), "uuid")
                 ann, pred = y.term[1]
-                guard = [c for c in conjuncts(y.live) if c[0] == "cmp" and c[1] == "in" and c[2] == key]
-                if guard and pred == e and ann == ("sub", guard[0][3], key):
-                    table = guard[0][3]
+                from sa.idioms import guarded_lookup
+                gl = guarded_lookup(y.live, ann)
+                if gl is not None and gl[1] == key and pred == e:
+                    table = gl[0]
                     if table[0] == "comp" and table[1] == "dict" and len(table[3]) == 1 and table[3][0][1] == A and not table[3][0][2]:
                         te = ("elem", table[3][0][0])
                         ok = table[2] == ("kv", ("attr", ("attr", te, "clip"), "uuid"), te)
@@ -235,9 +236,13 @@ class C08:
         BA, BP = ("attr", CA, "sound_events"), ("attr", CP, "sound_events")
         site = f"{self.file}:{s.node.lineno} evaluate_clip"
         Match = ("global", "soundevent.data.matches:Match", "class")
-        apps = [e for e in s.calls if e.term[1][0] == "attr" and e.term[1][2] == "append" and e.term[2]
-                and any(x[0] == "call" and x[1] == Match for x in walk(e.term[2][0])) or
-                (e.term[1][0] == "attr" and e.term[1][2] == "append" and e.term[2] and self._is_match_result(e.term[2][0]))]
+        def is_match_value(t):
+            if t[0] == "ite":
+                return is_match_value(t[2]) and is_match_value(t[3])
+            return (t[0] == "call" and t[1] == Match) or self._is_match_result(t)
+
+        apps = [e for e in s.calls if e.term[1][0] == "attr" and e.term[1][2] == "append" and len(e.term[2]) == 1
+                and is_match_value(e.term[2][0])]
         # the matches list is the receiver of the appends that take a literal Match(...)
         direct = [e for e in apps if any(x[0] == "call" and x[1] == Match for x in walk(e.term[2][0]))]
         receivers = {e.term[1][1] for e in direct}
@@ -247,7 +252,7 @@ class C08:
         loops = {e.loops[-1] for e in apps if e.loops}
         if len(loops) != 1 or not apps:
             ctx.undec("R08.7", site, f"cannot find the single loop that appends matches ({len(apps)} appends in {len(loops)} loops)")
-            return
+            return (s, apps) if apps and len({e.term[1][1] for e in apps}) == 1 else None
         lid = loops.pop()
         L = s.loops[lid]
         e = ("elem", lid)
@@ -474,6 +479,13 @@ class C08:
             if it[2][0] != B:
                 # iterates the other list: mentions no position of B unless the component indexes B
                 return ["none"] if comp == NONE else None
+        # iterating an index table of B: [(i, None, 0.0) for i in TABLE], TABLE = [i for i, x in enumerate(B) if c(x)]
+        te = self.elt_of(s, it)
+        if te is not None and not conds and comp == el:
+            telt, tlid, tit, tconds = te
+            tel = ("elem", tlid)
+            if tit[0] == "call" and tit[1] == ("builtin", "enumerate") and tit[2] == (B,) and telt == ("sub", tel, ("const", 0)):
+                return [pred_of(tconds, ("sub", tel, ("const", 1))) if tconds else "all"]
         return None
 
     # ------------------------------------------------------------------ R08.5
@@ -525,7 +537,29 @@ class C08:
             good = (sc is not None and sc[0] == "call" and sc[1] == mean and len(sc[2]) == 1 and sc[2][0][0] == "comp"
                     and len(sc[2][0][3]) == 1 and sc[2][0][3][0][1] == lst and not sc[2][0][3][0][2]
                     and sc[2][0][2] == ("attr", ("elem", sc[2][0][3][0][0]), "score"))
-            if good and kw.get("matches") == lst:
+            if not good and sc is not None and sc[0] == "call" and sc[1] == mean and len(sc[2]) == 1 and sc[2][0][0] == "alloc":
+                # a score list accumulated alongside the matches: one `scores.append(m.score)` next to every
+                # `matches.append(m)` (same path, same loop), and no other append to it
+                acc = sc[2][0]
+                sapps = [e for e in s_clip.calls if e.term[1] == ("attr", acc, "append") and len(e.term[2]) == 1]
+                others = [e for e in s_clip.events if e not in sapps and any(x == acc for x in walk(e.term)) and e.kind in ("call", "store", "delete")
+                          and not (e.kind == "call" and e.term == sc) and not (e.kind == "call" and any(x == sc for x in walk(e.term)))]
+                pairs = 0
+                for a in apps:
+                    m_ = a.term[2][0]
+                    if any(sa.live == a.live and sa.loops == a.loops and sa.term[2][0] == ("attr", m_, "score") for sa in sapps):
+                        pairs += 1
+                good = pairs == len(apps) == len(sapps) and not others
+                if not good:
+                    ctx.bad("R08.6", self.file, "evaluate_clip", f"ClipEvaluation(score=_mean({show(acc)}))",
+                            f"the clip score is the mean of a separately accumulated list that receives {len(sapps)} score(s) while "
+                            f"{len(apps)} matches are appended ({pairs} of them paired with their own score): the clip score is not "
+                            f"the mean over exactly the matches handed to ClipEvaluation", s_clip.node.lineno,
+                            witness={"matches_appends": len(apps), "score_appends": len(sapps)})
+                    good = None
+            if good is None:
+                pass
+            elif good and kw.get("matches") == lst:
                 ctx.ok("R08.6", site, "clip score = _mean(score of every appended match); matches=that list")
             else:
                 ctx.bad("R08.6", self.file, "evaluate_clip", f"ClipEvaluation(score={show(sc)[:60] if sc else '-'}, matches={show(kw.get('matches', NONE))[:30]})",
